@@ -349,7 +349,7 @@ func vfH_read_step_ctl() {
 	isServer := vfChoose(2) == 1
 	pmce := false
 	masked := vfChoose(2) == 1
-	lens := []int{0, 1, 2, 3, 6}
+	lens := []int{0, 1, 2, 3, 6, 125}
 	if tier >= 1 {
 		lens = []int{0, 1, 2, 3, 4, 5, 6, 8, 17, 124, 125}
 	}
